@@ -71,3 +71,13 @@ pub fn force_plain<P: Payload>(pc: &mut PeerCrypto<P>) {
     pc.unencrypted = true;
     pc.init = None;
 }
+
+/// seal an arbitrary plaintext (possibly empty, no type byte prepended) with the session's current key, as a key holder
+/// that does not run this code could
+pub fn seal_raw<P: Payload>(pc: &mut PeerCrypto<P>, plain: &[u8]) -> Option<Vec<u8>> {
+    let mut buf = MsgBuffer::new(64);
+    buf.set_length(plain.len());
+    buf.message_mut().copy_from_slice(plain);
+    pc.encrypt_message(&mut buf).ok()?;
+    Some(buf.message().to_vec())
+}
